@@ -29,22 +29,50 @@ typedef float bval_t;
 typedef double bval_t;
 #define BSIZE(n) ((size_t)(n) << 3)
 #define CQV_IS_FP 1
+#elif CQV_BT == 3
+/* INT96: three little-endian 32-bit words; the library's documented order (compare_int96: "3 uint32s ... from high
+ * to low") is the UNSIGNED 96-bit number word[2]:word[1]:word[0] (Parquet itself leaves INT96 order undefined) */
+typedef struct { uint32_t w[3]; } bval_t;
+#define BSIZE(n) (((size_t)(n) << 3) + ((size_t)(n) << 2))
+#define BLEQ(a, b) ((a).w[2] < (b).w[2] || ((a).w[2] == (b).w[2] && ((a).w[1] < (b).w[1] || ((a).w[1] == (b).w[1] && (a).w[0] <= (b).w[0]))))
+#define BEQ(a, b) ((a).w[2] == (b).w[2] && (a).w[1] == (b).w[1] && (a).w[0] == (b).w[0])
+#define BCOUNTS(x) 1
+#elif CQV_BT == 7 && defined(CQV_FLBA16)
+/* FIXED_LEN_BYTE_ARRAY(16): unsigned lexicographic = order of the two big-endian 64-bit halves */
+typedef struct { uint8_t by[16]; } bval_t;
+#define BSIZE(n) ((size_t)(n) << 4)
+#define BE64(p) (((uint64_t)(p)[0] << 56) | ((uint64_t)(p)[1] << 48) | ((uint64_t)(p)[2] << 40) | ((uint64_t)(p)[3] << 32) | \
+                 ((uint64_t)(p)[4] << 24) | ((uint64_t)(p)[5] << 16) | ((uint64_t)(p)[6] << 8) | (uint64_t)(p)[7])
+#define BLEQ(x, y) (BE64((x).by) < BE64((y).by) || (BE64((x).by) == BE64((y).by) && BE64((x).by + 8) <= BE64((y).by + 8)))
+#define BEQ(x, y) (BE64((x).by) == BE64((y).by) && BE64((x).by + 8) == BE64((y).by + 8))
+#define BCOUNTS(x) 1
+#define BEXTRA(bld) ((bld)->type_length == 16)
 #else
 typedef uint8_t bval_t; /* not used by the scalar contracts */
 #define BSIZE(n) ((size_t)(n))
 #endif
 /* largest element count considered (keeps byte offsets far below 2^55) */
 #define CQV_MAXN ((int64_t)1 << 36)
+#if CQV_BT == 3
+#define BV(k) (*(const bval_t *)((const uint32_t *)values + ((k) << 1) + (k)))
+#else
 #define BV(k) (((const bval_t *)values)[k])
+#endif
 #define BMIN (*(const bval_t *)builder->min_value)
 #define BMAX (*(const bval_t *)builder->max_value)
 /* BLEQ = the specification order, BCOUNTS(x) = x is a value the bounds must cover */
 #if defined(CQV_IS_FP)
 #define BLEQ(a, b) ((a) <= (b))
 #define BCOUNTS(x) ((x) == (x))
-#else
+#elif !defined(BLEQ)
 #define BLEQ(a, b) ((a) <= (b))
 #define BCOUNTS(x) 1
+#endif
+#ifndef BEQ
+#define BEQ(a, b) ((a) == (b))
+#endif
+#ifndef BEXTRA
+#define BEXTRA(bld) 1
 #endif
 
 /* ghosts: arbitrary element index; pre-state of the builder */
@@ -62,7 +90,11 @@ void h_add_values(void) {
   carquet_statistics_builder_t *b = nondet_bool() ? malloc(sizeof(*b)) : NULL;
   int64_t n = nondet_i64();
   __CPROVER_assume(n <= CQV_MAXN);
+#if CQV_BT == 3
+  uint32_t *values = (n > 0 && nondet_bool()) ? malloc(sizeof(uint32_t) * (size_t)(n + n + n)) : NULL; /* 3 words per INT96 */
+#else
   bval_t *values = (n > 0 && nondet_bool()) ? malloc(sizeof(bval_t) * (size_t)n) : NULL;
+#endif
   carquet_status_t st = carquet_statistics_add_values(b, values, n);
   if (st == CARQUET_OK) CQV_CANARY("add_values can succeed");
   CQV_CANARY("add_values returns");
@@ -110,7 +142,7 @@ void h_builder_fp_seq(void) {
 }
 #endif
 
-#if CQV_BT == 1 || CQV_BT == 2 || CQV_BT == 4 || CQV_BT == 5
+#if CQV_BT == 0 || CQV_BT == 1 || CQV_BT == 2 || CQV_BT == 4 || CQV_BT == 5
 /* carquet_statistics_compare / carquet_statistics_range_overlaps: no false negatives (scalar types, IEEE order
  * for floats).  Statistics fields are exact-size objects of the type's width; each may be absent. */
 static parquet_statistics_t *mk_stats(bval_t mn, bval_t mx, unsigned present) {
@@ -256,5 +288,69 @@ void h_build(void) {
   }
   __CPROVER_assert(out.has_null_count && out.null_count == b->null_count, "null_count passes through");
   CQV_CANARY("build end");
+}
+#endif
+
+#if CQV_BT == 3
+/* compare_int96 is the sign of the comparison of the unsigned 96-bit numbers w[2]:w[1]:w[0] (all 2^192 inputs):
+ * hence a total order: 0 iff the values are equal word for word, antisymmetric. */
+void h_compare_int96(void) {
+  uint32_t a[3], b[3];
+  for (int i = 0; i < 3; i++) { a[i] = nondet_u32(); b[i] = nondet_u32(); }
+  int r = compare_int96(a, b), r2 = compare_int96(b, a);
+  _Bool lt = a[2] < b[2] || (a[2] == b[2] && (a[1] < b[1] || (a[1] == b[1] && a[0] < b[0])));
+  _Bool eq = a[2] == b[2] && a[1] == b[1] && a[0] == b[0];
+  __CPROVER_assert(r == (eq ? 0 : (lt ? -1 : 1)), "compare_int96 is the sign of the unsigned 96-bit comparison, most significant word first");
+  __CPROVER_assert((r == 0) == eq, "compare == 0 iff the two values are equal");
+  __CPROVER_assert(r2 == -r, "antisymmetric");
+  if (r == 0) CQV_CANARY("int96: equal"); else if (r < 0) CQV_CANARY("int96: less"); else CQV_CANARY("int96: greater");
+}
+static uint32_t *i96(uint32_t w0, uint32_t w1, uint32_t w2) {
+  uint32_t *p = malloc(12);
+  __CPROVER_assume(p != NULL);
+  p[0] = w0; p[1] = w1; p[2] = w2;
+  return p;
+}
+#define LE96(a, b) ((a)[2] < (b)[2] || ((a)[2] == (b)[2] && ((a)[1] < (b)[1] || ((a)[1] == (b)[1] && (a)[0] <= (b)[0]))))
+static parquet_statistics_t *mk_stats96(uint32_t *mn, uint32_t *mx) {
+  parquet_statistics_t *s = malloc(sizeof(*s));
+  __CPROVER_assume(s != NULL);
+  s->min_value = (uint8_t *)mn; s->min_value_len = mn ? 12 : nondet_i32();
+  s->max_value = (uint8_t *)mx; s->max_value_len = mx ? 12 : nondet_i32();
+  return s;
+}
+void h_stats_compare_int96(void) {
+  unsigned present = nondet_unsigned();
+  uint32_t *mn = (present & 1) ? i96(nondet_u32(), nondet_u32(), nondet_u32()) : NULL;
+  uint32_t *mx = (present & 2) ? i96(nondet_u32(), nondet_u32(), nondet_u32()) : NULL;
+  uint32_t *v = i96(nondet_u32(), nondet_u32(), nondet_u32());
+  parquet_statistics_t *s = mk_stats96(mn, mx);
+  int result = nondet_int();
+  carquet_status_t st = carquet_statistics_compare(s, CARQUET_PHYSICAL_INT96, v, 12, &result);
+  __CPROVER_assert(st == CARQUET_OK, "compare succeeds");
+  _Bool bounds = (!mn || LE96(mn, v)) && (!mx || LE96(v, mx));
+  if (bounds) { __CPROVER_assert(result == 0, "a value inside true bounds is in range"); CQV_CANARY("compare96: in range"); }
+  /* and the verdicts are right: -1 only below min, 1 only above max (so 'in range' is not claimed for everything) */
+  if (result < 0) { __CPROVER_assert(mn && !LE96(mn, v), "-1 only for a value below min"); CQV_CANARY("compare96: below"); }
+  if (result > 0) { __CPROVER_assert(mx && !LE96(v, mx), "1 only for a value above max"); CQV_CANARY("compare96: above"); }
+  if (mn && !LE96(mn, v)) __CPROVER_assert(result == -1, "a value below min is reported -1");
+  CQV_CANARY("compare96 end");
+}
+void h_range_overlaps_int96(void) {
+  unsigned present = nondet_unsigned();
+  uint32_t *mn = (present & 1) ? i96(nondet_u32(), nondet_u32(), nondet_u32()) : NULL;
+  uint32_t *mx = (present & 2) ? i96(nondet_u32(), nondet_u32(), nondet_u32()) : NULL;
+  uint32_t *qmin = (present & 4) ? i96(nondet_u32(), nondet_u32(), nondet_u32()) : NULL;
+  uint32_t *qmax = (present & 8) ? i96(nondet_u32(), nondet_u32(), nondet_u32()) : NULL;
+  uint32_t *x = i96(nondet_u32(), nondet_u32(), nondet_u32());
+  parquet_statistics_t *s = mk_stats96(mn, mx);
+  bool ov = nondet_bool();
+  carquet_status_t st = carquet_statistics_range_overlaps(s, CARQUET_PHYSICAL_INT96, qmin, qmax, 12, &ov);
+  __CPROVER_assert(st == CARQUET_OK, "range_overlaps succeeds");
+  _Bool in_stats = (!mn || LE96(mn, x)) && (!mx || LE96(x, mx));
+  _Bool in_query = (!qmin || LE96(qmin, x)) && (!qmax || LE96(x, qmax));
+  if (in_stats && in_query) { __CPROVER_assert(ov, "overlap reported when a value lies in both ranges (INT96 order)"); CQV_CANARY("overlaps96: witness"); }
+  if (!ov) CQV_CANARY("overlaps96: can be false");
+  CQV_CANARY("overlaps96 end");
 }
 #endif
